@@ -4,6 +4,7 @@ package p16
 
 import (
 	"fmt"
+	"github.com/bytom/bytom/consensus"
 	"os"
 	"testing"
 
@@ -416,6 +417,159 @@ func TestC17(t *testing.T) {
 			return jc.check(c, ob, ctx)
 		})
 	})
+	// (c) validator sets that change from epoch to epoch: vote outputs elect 1..6 validators (the
+	// federation of 2 only rules until somebody is voted in), vetoes shrink the set again; skip links
+	// and votes delivered last by descending target height record links before their sources are
+	// justified, so that the cascades run over checkpoints with DIFFERENT numbers of validators.
+	r.Cases("voted-validators", r.N(20, 3200), func(c *ev.Case) {
+		net := chainkit.Configure(chainkit.Params{Epoch: 4, Fed: 2, Local: -1, VotePending: 3, NKeys: 6})
+		g := net.NewGenesis(14, 2)
+		tr := net.NewTree(g)
+		o := chainkit.DefaultGen(c.Rand.Range(20, 40))
+		o.MaxTxs, o.ForkPct, o.MaxBranch = 2, 15, 2
+		o.Contracts, o.CoinbaseSp, o.Chained = false, false, false
+		if _, err := tr.Grow(c.Rand, o); err != nil {
+			c.Violation("harness:grow", "tree generator failed", err.Error())
+			return
+		}
+		sizes := map[int]bool{}
+		for _, cp := range tr.Checkpoints() {
+			sizes[len(tr.ValidatorsOf(cp))] = true
+		}
+		c.Count("voted_trees", 1)
+		if len(sizes) >= 2 {
+			c.Count("voted_trees_with_changing_validator_count", 1)
+		}
+		// low participation on purpose: the number of signatures of a link then lies between two thirds of
+		// one epoch's validator count and two thirds of another's
+		fo := chainkit.FFGOpt{Byzantine: -1, VotePct: []int{90, 65, 50}[c.Index%3], EarlyVotePct: 10, GarbagePct: 5, BlockOrder: c.Index / 3 % 3, Duplicates: true, NodeKey: -1,
+			VotesLastDescending: c.Index%2 == 0, SkipEpochPct: []int{30, 50}[c.Index/2%2]}
+		steps, _ := tr.GenScheduleFFG(c.Rand, fo)
+		c.Distinct("voted|%s|%d|%d", tr.Shape(), len(steps), len(sizes))
+		c.Journal(map[string]interface{}{"shape": tr.Shape(), "steps": len(steps), "validator_counts": len(sizes)})
+		rn, err := newRunner(c, net, g, tr, fmt.Sprintf("%s/v%d", base, c.Index))
+		if err != nil {
+			c.Inconclusive("node: %v", err)
+			return
+		}
+		defer func() { rn.nd.Destroy() }()
+		jc := &justCheck{net: net, tr: tr}
+		jc.node = func() *chainkit.Node { return rn.nd }
+		rn.run(steps, runOpt{reopenPct: 3, headerVotes: true}, func(si int, s chainkit.Step, err error, ob *obs, restarted bool) bool {
+			ctx := map[string]interface{}{"step": si, "event": s.String(), "after_restart": restarted, "shape": tr.Shape(), "trail": rn.trail}
+			c.Count("states_checked", 1)
+			return jc.check(c, ob, ctx)
+		})
+	})
+	// (d) a cascade over checkpoints whose validator counts differ.  Chain G..A(4)..B(8)..C(12): vote
+	// outputs in epoch 1 elect k1 validators (they vote on B), more vote outputs in epoch 2 raise the set
+	// to k2 > k1 (they vote on C).  s of the k2 validators sign the skip link A->C while A is still
+	// unjustified; then the federation justifies A and the engine walks A's descendants.  C may become
+	// justified only if 3s > 2*k2, whatever k1 is.
+	r.Cases("cascade-growing-set", r.N(36, 1800), func(c *ev.Case) {
+		rng := c.Rand
+		net := chainkit.Configure(chainkit.Params{Epoch: 4, Fed: 2, Local: -1, VotePending: 3, NKeys: 8})
+		g := net.NewGenesis(14, 0)
+		tr := net.NewTree(g)
+		k1 := 1 + c.Index%3
+		k2 := k1 + 1 + (c.Index/3)%4
+		vote := func(fund int, keys []int, amt uint64) *types.Tx {
+			f := g.Funds[fund]
+			var outs []chainkit.Out
+			left := f.Amount - chainkit.DefaultFee
+			for _, k := range keys {
+				outs = append(outs, chainkit.Out{Asset: chainkit.BTM, Amount: amt, Program: chainkit.RandProg(rng), Vote: net.VoteKey(k)})
+				left -= amt
+			}
+			outs = append(outs, chainkit.Out{Asset: chainkit.BTM, Amount: left, Program: chainkit.RandProg(rng)})
+			return chainkit.MakeTx([]*chainkit.UTXO{f}, outs, 0)
+		}
+		seq := func(a, b int) []int {
+			var l []int
+			for i := a; i < b; i++ {
+				l = append(l, i)
+			}
+			return l
+		}
+		p := tr.Root
+		var chain []*chainkit.Blk
+		for h := 1; h <= 12; h++ {
+			var txs []*types.Tx
+			switch h {
+			case 2:
+				txs = append(txs, vote(0, seq(0, k1), 3*consensus.MinVoteOutputAmount))
+			case 6:
+				txs = append(txs, vote(1, seq(k1, k2), 2*consensus.MinVoteOutputAmount))
+			}
+			b, err := tr.Build(p, txs, chainkit.BlockOpt{})
+			if err != nil {
+				c.Violation("harness:build", "reference ledger rejects a generated block", err.Error())
+				return
+			}
+			chain = append(chain, b)
+			p = b
+		}
+		A, B, C := chain[3], chain[7], chain[11]
+		valsB, valsC := tr.ValidatorsOf(B), tr.ValidatorsOf(C)
+		if len(valsB) != k1 || len(valsC) != k2 {
+			c.Inconclusive("case %d: reference validator counts %d/%d, wanted %d/%d", c.Index, len(valsB), len(valsC), k1, k2)
+			return
+		}
+		sN := 1 + rng.Intn(k2)
+		if rng.Chance(1, 2) { // the interesting band: more than two thirds of k1, at most two thirds of k2
+			if lo, hi := 2*k1/3+1, 2*k2/3; hi >= lo {
+				sN = lo + rng.Intn(hi-lo+1)
+			}
+		}
+		signers := append([]int{}, valsC...)
+		rng.Shuffle(len(signers), func(i, j int) { signers[i], signers[j] = signers[j], signers[i] })
+		signers = signers[:sN]
+		wantC := 3*sN > 2*k2
+		c.Distinct("cascade k1=%d k2=%d s=%d", k1, k2, sN)
+		c.Journal(map[string]interface{}{"k1": k1, "k2": k2, "signers_A->C": sN})
+		var steps []chainkit.Step
+		for _, b := range chain {
+			steps = append(steps, chainkit.Step{Blk: b})
+		}
+		for _, k := range signers {
+			steps = append(steps, chainkit.Step{Vote: &chainkit.VoteSpec{Key: k, Source: A, Target: C}})
+		}
+		for _, k := range tr.ValidatorsOf(A) { // the federation justifies A
+			steps = append(steps, chainkit.Step{Vote: &chainkit.VoteSpec{Key: k, Source: tr.Root, Target: A}})
+		}
+		rn, err := newRunner(c, net, g, tr, fmt.Sprintf("%s/d%d", base, c.Index))
+		if err != nil {
+			c.Inconclusive("node: %v", err)
+			return
+		}
+		defer func() { rn.nd.Destroy() }()
+		jc := &justCheck{net: net, tr: tr}
+		jc.node = func() *chainkit.Node { return rn.nd }
+		rn.run(steps, runOpt{}, func(si int, s chainkit.Step, err error, ob *obs, restarted bool) bool {
+			ctx := map[string]interface{}{"k1": k1, "k2": k2, "signers_A->C": sN, "step": si, "event": s.String(), "trail": rn.trail}
+			if !jc.check(c, ob, ctx) {
+				return false
+			}
+			stA, _ := statusOf(ob, A.Hash)
+			stC, _ := statusOf(ob, C.Hash)
+			if stC >= state.Justified && !(wantC && stA >= state.Justified) {
+				c.Violation("cascade:justified-with-at-most-two-thirds-of-its-own-validators", "a checkpoint reached through a cascade is justified although the link carries at most two thirds of the validators of ITS epoch",
+					ctx)
+				return false
+			}
+			return true
+		})
+		c.Count("cascades_checked", 1)
+		if wantC {
+			c.Count("cascades_with_supermajority", 1)
+		} else if 3*sN > 2*k1 {
+			c.Count("cascades_between_the_two_thresholds", 1)
+		}
+		_ = B
+	})
+	r.Floor("cascades_checked", 30)
+	r.Floor("cascades_between_the_two_thresholds", 5)
+	r.Floor("voted_trees_with_changing_validator_count", 8)
 	r.Floor("justifications_checked", 30)
 	r.Floor("finalizations_checked", 10)
 	r.Floor("supermajority_justified", 10)
